@@ -74,42 +74,60 @@ def baseline_keys(ctx):
     return {(o.rule, o.key) for o in ctx.obs if o.status == 'violation'}
 
 
+def _variant(args):
+    """one variant in its own scratch copy (also the body of a worker process): apply, extract, run the quick rules, compare"""
+    pid, name, path, expect, note, repo, base = args
+    base = set(map(tuple, base))
+    mod = importlib.import_module('sa.props.' + pid)
+    d = tempfile.mkdtemp(prefix='gdstk-selftest.')
+    try:
+        for sub in ('src', 'include', 'external'):
+            shutil.copytree(os.path.join(repo, sub), os.path.join(d, sub), symlinks=True)
+        p = subprocess.run(['patch', '-p1', '-s', '-f', '--no-backup-if-mismatch', '-i', path], cwd=d, stdout=subprocess.PIPE, stderr=subprocess.STDOUT, text=True)
+        if p.returncode != 0:
+            return {'patch': name, 'status': 'skipped', 'why': 'does not apply to the current tree', 'expect': expect}
+        try:
+            with _deadline(240):
+                db2 = facts.load(d)
+                c2 = core.Ctx(pid, 'quick', db2, scratch=True)
+                mod.run(c2)
+            new = [o for o in c2.obs if o.status == 'violation' and (o.rule, o.key) not in base]
+            broken = [m for m in c2.mins if m[1] < m[2]] + [c for c in c2.controls if not c[1]] + list(c2.broken)
+            fired = bool(new) or bool(broken)
+            rep = [{'rule': o.rule, 'instance': o.key, 'loc': o.loc, 'what': o.what[:200]} for o in new[:4]]
+            if broken and not new:
+                rep = [{'analysis_broken': str(broken[:2])}]
+        except facts.AnalysisBroken as e:
+            fired = True
+            rep = [{'analysis_broken': str(e)[:300]}]
+        except Exception as e:          # noqa: BLE001  (a rule raising on a changed tree: reported, never a crash of the whole check)
+            fired = True
+            rep = [{'analysis_broken': 'internal: %s: %s' % (type(e).__name__, str(e)[:200])}]
+        return {'patch': name, 'status': 'caught' if fired else 'missed', 'expect': expect, 'reports': rep, 'note': note[:200]}
+    finally:
+        shutil.rmtree(d, ignore_errors=True)
+
+
+def jobs():
+    """worker processes for the variants of one check: GDSTK_SA_JOBS, else half of the cores (at most 8)"""
+    try:
+        n = int(os.environ.get('GDSTK_SA_JOBS', '0') or 0)
+    except ValueError:
+        n = 0
+    return n if n > 0 else max(1, min(8, (os.cpu_count() or 2) // 2))
+
+
 def run(pid, ctx, repo=None):
     repo = repo or facts.REPO
-    mod = importlib.import_module('sa.props.' + pid)
-    base = baseline_keys(ctx)
-    results = []
-    for name, path, expect, expect_rule, note in patches_for(pid):
-        d = tempfile.mkdtemp(prefix='gdstk-selftest.')
-        try:
-            for sub in ('src', 'include', 'external'):
-                shutil.copytree(os.path.join(repo, sub), os.path.join(d, sub), symlinks=True)
-            p = subprocess.run(['patch', '-p1', '-s', '-f', '--no-backup-if-mismatch', '-i', path], cwd=d, stdout=subprocess.PIPE, stderr=subprocess.STDOUT, text=True)
-            if p.returncode != 0:
-                results.append({'patch': name, 'status': 'skipped', 'why': 'does not apply to the current tree', 'expect': expect})
-                continue
-            try:
-                with _deadline(240):
-                    db2 = facts.load(d)
-                    c2 = core.Ctx(pid, 'quick', db2, scratch=True)
-                    mod.run(c2)
-                new = [o for o in c2.obs if o.status == 'violation' and (o.rule, o.key) not in base]
-                broken = [m for m in c2.mins if m[1] < m[2]] + [c for c in c2.controls if not c[1]] + list(c2.broken)
-                fired = bool(new) or bool(broken)
-                rep = [{'rule': o.rule, 'instance': o.key, 'loc': o.loc, 'what': o.what[:200]} for o in new[:4]]
-                if broken and not new:
-                    rep = [{'analysis_broken': str(broken[:2])}]
-            except facts.AnalysisBroken as e:
-                fired = True
-                rep = [{'analysis_broken': str(e)[:300]}]
-            except Exception as e:          # noqa: BLE001  (a rule raising on a changed tree: reported, never a crash of the whole check)
-                fired = True
-                rep = [{'analysis_broken': 'internal: %s: %s' % (type(e).__name__, str(e)[:200])}]
-            results.append({'patch': name, 'status': 'caught' if fired else 'missed', 'expect': expect, 'reports': rep, 'note': note[:200]})
-        finally:
-            shutil.rmtree(d, ignore_errors=True)
-            # facts cache entries of scratch trees are dropped as well
-    return results
+    base = sorted(baseline_keys(ctx))
+    work = [(pid, name, path, expect, note, repo, base) for name, path, expect, expect_rule, note in patches_for(pid)]
+    n = jobs()
+    if n <= 1 or len(work) < 2:
+        return [_variant(w) for w in work]
+    # the variants are independent (each has its own scratch copy; the caches are content addressed and written atomically)
+    import multiprocessing
+    with multiprocessing.get_context('fork').Pool(n) as pool:
+        return pool.map(_variant, work, chunksize=1)
 
 
 def gm_control(pid, ctx, n=24, repo=None):
